@@ -134,8 +134,8 @@ mutual
   /-- `contains_yield` (since the repair it visits what `find_yield_in_stmt` visits: `async with`,
       `async for` and `except` bodies too). -/
   def containsYieldStmt : Stmt → Bool
-    | .expr (.yield _) _ => true
-    | .expr (.yieldFrom _) _ => true
+    | .expr (.yield _ _) _ => true
+    | .expr (.yieldFrom _ _) _ => true
     | .if_ _ b o _ => containsYield b || containsYield o
     | .for_ _ _ _ b o _ => containsYield b || containsYield o
     | .while_ _ b o _ => containsYield b || containsYield o
@@ -187,8 +187,8 @@ def docstringOf (body : List Stmt) : Option String :=
 /-! ### analyzer.rs: yield line -/
 
 def yieldInExpr : Expr → Option Nat
-  | .yield r => some r.line
-  | .yieldFrom r => some r.line
+  | .yield _ r => some r.line
+  | .yieldFrom _ r => some r.line
   | _ => none
 
 mutual
@@ -250,7 +250,7 @@ mutual
   /-- `visit_expr_for_names`: the `Name` nodes reached, in visiting order. -/
   def refsOfExpr : Expr → List NameRef
     | .name id r => [⟨id, r.line, r.col, r.endCol⟩]
-    | .call f args _ _ _ => refsOfExpr f ++ refsOfExprs args
+    | .call f args _ kwVals _ => refsOfExpr f ++ refsOfExprs args ++ refsOfExprs kwVals
     | .attribute v _ _ => refsOfExpr v
     | .binOp l _ r _ => refsOfExpr l ++ refsOfExpr r
     | .unaryOp o _ => refsOfExpr o
@@ -260,6 +260,9 @@ mutual
     | .tuple elts _ => refsOfExprs elts
     | .dict ks vs _ => refsOfExprs ks ++ refsOfExprs vs
     | .await v _ => refsOfExpr v
+    | .group parts _ => refsOfExprs parts
+    | .yield v _ => refsOfExprs v
+    | .yieldFrom v _ => refsOfExprs v
     | _ => []
   def refsOfExprs : List Expr → List NameRef
     | [] => []
